@@ -53,7 +53,27 @@ func collidingTypes() []protoreflect.MessageDescriptor {
 		{Name: proto.String("verif/c12_e.proto"), Package: proto.String("vendor.e"), Syntax: proto.String("proto3"), MessageType: []*descriptorpb.DescriptorProto{
 			msg("ListThingsRequest", fl{f("name", 1, str, rep), f("owner", 2, str, opt)}), // repeated name
 		}},
+		{Name: proto.String("verif/c12_f.proto"), Package: proto.String("vendor.f"), Syntax: proto.String("proto3"), MessageType: []*descriptorpb.DescriptorProto{
+			// `optional string name`: explicit presence; present-but-empty is still the empty name
+			{Name: proto.String("GetOnOffRequest"), Field: fl{optF(f("name", 1, str, opt), 0), f("zone", 2, str, opt)},
+				OneofDecl: []*descriptorpb.OneofDescriptorProto{{Name: proto.String("_name")}}},
+			// JSON names crossed over: the field is found by its TEXT name
+			msg("JsonTrap", fl{jsonF(f("label", 1, str, opt), "name"), jsonF(f("name", 2, str, opt), "label")}),
+		}},
 	}
+	// requests carrying sub-messages that have their own name field: only the request's own name counts
+	msgT := descriptorpb.FieldDescriptorProto_TYPE_MESSAGE
+	sub := func(n string, num int32, l descriptorpb.FieldDescriptorProto_Label, tn string) *descriptorpb.FieldDescriptorProto {
+		fd := f(n, num, msgT, l)
+		fd.TypeName = proto.String(tn)
+		return fd
+	}
+	files = append(files, &descriptorpb.FileDescriptorProto{Name: proto.String("verif/c12_g.proto"), Package: proto.String("vendor.g"), Syntax: proto.String("proto3"),
+		MessageType: []*descriptorpb.DescriptorProto{
+			msg("Thing", fl{f("name", 1, str, opt), f("label", 2, str, opt)}),
+			msg("UpdateThingRequest", fl{f("name", 1, str, opt), sub("thing", 2, opt, ".vendor.g.Thing"), sub("things", 3, rep, ".vendor.g.Thing")}),
+			msg("CreateThingRequest", fl{sub("thing", 1, opt, ".vendor.g.Thing"), f("name", 2, str, opt)}),
+		}})
 	var out []protoreflect.MessageDescriptor
 	var walk func(ms protoreflect.MessageDescriptors)
 	walk = func(ms protoreflect.MessageDescriptors) {
@@ -72,6 +92,40 @@ func collidingTypes() []protoreflect.MessageDescriptor {
 		walk(fd.Messages())
 	}
 	return out
+}
+
+func optF(fd *descriptorpb.FieldDescriptorProto, oneof int32) *descriptorpb.FieldDescriptorProto {
+	fd.Proto3Optional = proto.Bool(true)
+	fd.OneofIndex = proto.Int32(oneof)
+	return fd
+}
+func jsonF(fd *descriptorpb.FieldDescriptorProto, json string) *descriptorpb.FieldDescriptorProto {
+	fd.JsonName = proto.String(json)
+	return fd
+}
+
+// fullMethod: the interceptors must not care which method is being served.
+func (g *c12) fullMethod() string {
+	l := []string{"/x/Y", "/smartcore.traits.OnOffApi/GetOnOff", "/smartcore.traits.OnOffApi/PullOnOff", "/grpc.health.v1.Health/Check",
+		"/grpc.reflection.v1alpha.ServerReflection/ServerReflectionInfo", "", "/", "no-slash"}
+	m := l[g.r.Intn(len(l))]
+	g.o.Extra["name:method:"+m] = extraInt(g.o.Extra["name:method:"+m]) + 1
+	return m
+}
+
+// setStr gives a singular string field its content for a sequence/session: cleared, set, or -- where
+// the field has explicit presence -- present but empty.
+func (g *c12) setStr(m protoreflect.Message, fd protoreflect.FieldDescriptor, clearPct int) {
+	switch {
+	case g.r.Chance(clearPct):
+		m.Clear(fd)
+		if fd.HasPresence() && g.r.Chance(50) {
+			m.Set(fd, protoreflect.ValueOfString(""))
+			g.o.Extra["name:sequence:present-but-empty"] = extraInt(g.o.Extra["name:sequence:present-but-empty"]) + 1
+		}
+	default:
+		m.Set(fd, protoreflect.ValueOfString(g.fieldStr()))
+	}
 }
 
 func coqType(d protoreflect.MessageDescriptor) string {
@@ -104,6 +158,11 @@ func render(m protoreflect.Message) (string, map[string]string) {
 		case fd.IsList():
 			var parts []string
 			for j := 0; j < v.List().Len(); j++ {
+				if fd.Message() != nil {
+					b, _ := proto.MarshalOptions{Deterministic: true}.Marshal(v.List().Get(j).Message().Interface())
+					parts = append(parts, "msg:"+hex.EncodeToString(b))
+					continue
+				}
 				parts = append(parts, fmt.Sprint(v.List().Get(j).Interface()))
 			}
 			s = "[" + strings.Join(parts, "|") + "]"
@@ -161,11 +220,7 @@ func (g *c12) defaultSequences() {
 			for j := 0; j < d.Fields().Len(); j++ {
 				fd := d.Fields().Get(j)
 				if fd.Kind() == protoreflect.StringKind && !fd.IsList() {
-					if g.r.Chance(55) {
-						m.Clear(fd)
-					} else {
-						m.Set(fd, protoreflect.ValueOfString(g.str()+"v"))
-					}
+					g.setStr(m, fd, 55)
 				}
 			}
 			path := g.r.Intn(3)
@@ -179,14 +234,14 @@ func (g *c12) defaultSequences() {
 				}()
 				switch path {
 				case 0:
-					unary(context.Background(), m.Interface(), &grpc.UnaryServerInfo{FullMethod: "/x/Y"},
+					unary(context.Background(), m.Interface(), &grpc.UnaryServerInfo{FullMethod: g.fullMethod()},
 						func(ctx context.Context, r any) (any, error) { return nil, nil })
 				default:
 					ss := &recvStream{}
 					if path == 2 {
 						ss.err = errors.New("recv failed")
 					}
-					stream(nil, ss, &grpc.StreamServerInfo{FullMethod: "/x/Y"}, func(srv any, st grpc.ServerStream) error {
+					stream(nil, ss, &grpc.StreamServerInfo{FullMethod: g.fullMethod(), IsClientStream: g.r.Chance(30), IsServerStream: g.r.Chance(70)}, func(srv any, st grpc.ServerStream) error {
 						st.RecvMsg(m.Interface()) // the fake leaves the message as the handler prepared it
 						return nil
 					})
@@ -202,6 +257,16 @@ func (g *c12) defaultSequences() {
 		g.o.Add(vcoq.Case{Coq: coq, JSON: map[string]any{"kind": "default-name-sequence", "default": dflt, "steps": jsteps},
 			Key: coq, NonTrivial: true, Tags: []string{"default-name", "default-name:sequence"}})
 	}
+}
+
+// fieldStr: a non-empty content for a string field; a third are blank / padded / odd names.
+func (g *c12) fieldStr() string {
+	v := g.str() + "v"
+	if g.r.Chance(35) {
+		v = g.oddName()
+	}
+	g.o.Extra["name:sequence:"+nameClass(v)] = extraInt(g.o.Extra["name:sequence:"+nameClass(v)]) + 1
+	return v
 }
 
 // sessStream delivers a scripted series of request messages on ONE server stream.
@@ -258,11 +323,7 @@ func (g *c12) streamSessions() {
 			for j := 0; j < d.Fields().Len(); j++ {
 				fd := d.Fields().Get(j)
 				if fd.Kind() == protoreflect.StringKind && !fd.IsList() {
-					if g.r.Chance(60) {
-						m.Clear(fd)
-					} else {
-						m.Set(fd, protoreflect.ValueOfString(g.str()+"v"))
-					}
+					g.setStr(m, fd, 60)
 				}
 			}
 			plan = append(plan, sessMsg{content: m.Interface(), fail: i > 0 && g.r.Chance(15)})
@@ -271,7 +332,7 @@ func (g *c12) streamSessions() {
 		ss := &sessStream{plan: plan}
 		var rs, obs []string
 		var jmsgs []any
-		herr := name.IfAbsentStreamInterceptor(dflt)(nil, ss, &grpc.StreamServerInfo{FullMethod: "/x/Y", IsClientStream: true},
+		herr := name.IfAbsentStreamInterceptor(dflt)(nil, ss, &grpc.StreamServerInfo{FullMethod: g.fullMethod(), IsClientStream: g.r.Chance(70), IsServerStream: g.r.Chance(50)},
 			func(srv any, st grpc.ServerStream) error {
 				for i, p := range plan {
 					target := newMsg(descs[i])
